@@ -31,7 +31,9 @@ def universes(tier, seed):
         out.append((f"NFVS3[{seed % 128}/128]", [("idx", 3, i) for i in U.shard(U.catalogue("nfvs"), seed, 128)]))
         out.append(("P4c", [("p4", a, b) for a, b in U.P4_pairs(True)]))
         out.append(("I3", [("i3", i) for i in range(len(U.I3_nets()))]))
+        out.append((f"U3c[idx={seed % 4093} mod 4093]", [("idx", 3, i) for i in U.U3c_shard(seed, 4093)]))
     else:
+        out.append((f"U3c[idx={seed % 127} mod 127]", [("idx", 3, i) for i in U.U3c_shard(seed, 127)]))
         out.append(("F3", [("idx", 3, i) for i in U.F3_indices(False)]))
         out.append(("MAA3", [("idx", 3, i) for i in U.catalogue("maa")]))
         out.append(("NFVS3[/8]", [("idx", 3, i) for i in U.shard(U.catalogue("nfvs"), seed, 8)]))
